@@ -102,6 +102,9 @@ class Interp:
                 t = n.targets[0].id
                 if isinstance(n.value, ast.Call) and ast.unparse(n.value) in ("ast.Load()", "ast.Store()", "ast.Del()"):
                     self.module_consts[t] = Ctx(ast.unparse(n.value.func).split(".")[1])
+                elif isinstance(n.value, ast.Constant) and isinstance(n.value.value, str) and \
+                        sum(1 for m in ast.walk(self.sub) if isinstance(m, ast.Name) and m.id == t and not isinstance(m.ctx, ast.Load)) == 1:
+                    self.module_consts[t] = Const(n.value.value)      # a module-level string bound once: a named literal
         self.ir = repo.ir_x()
         self.never_emitted = repo.never_emitted_token_kinds()
         self.rule_types: dict[str, V] = {}
@@ -971,6 +974,19 @@ class Interp:
                     return False
                 for t, x in zip(target.elts, v.elems):
                     self.bind_target(t, x, env, fr)
+                return True
+            stars = [i for i, t in enumerate(target.elts) if isinstance(t, ast.Starred)]
+            if isinstance(v, Const) and isinstance(v.value, tuple) and len(stars) == 1 and len(v.value) >= n - 1:
+                i = stars[0]
+                tail = n - 1 - i
+                vals = list(v.value)
+                mid = vals[i:len(vals) - tail]
+                parts = vals[:i] + [tuple(mid)] + vals[len(vals) - tail:]
+                for t, x in zip(target.elts, parts):
+                    if isinstance(t, ast.Starred):
+                        self.bind_target(t.value, Const(x), env, fr)
+                    else:
+                        self.bind_target(t, NONE if x is None else Const(x), env, fr)
                 return True
             if isinstance(v, Const) and isinstance(v.value, tuple) and len(v.value) == n:
                 for t, x in zip(target.elts, v.value):
